@@ -3,7 +3,7 @@ import seqcheck
 
 
 def knobs(r, i):
-    return {"ops": 30 + r.below(120), "threads": 1 + i % 2, "cycle_density": i % 2, "multi": i % 3 == 0, "unsampled": i % 4 == 0}
+    return {"ops": 30 + r.below(120), "threads": 1 + i % 2, "cycle_density": i % 2, "multi": i % 3 == 0, "unsampled": i % 4 == 0, "unwinds": i % 3 == 1, "open_at_close": i % 5 == 2}
 
 
 def run(v, tier, seed, replay):
